@@ -28,6 +28,8 @@ type Stmt struct {
 	Inv     []*Stmt   `json:"inv,omitempty"`
 	HasInv  bool      `json:"hasinv,omitempty"`
 	SM      string    `json:"sm,omitempty"` // state machine built with StateMachineActions on this menu type
+	Raw     []byte    `json:"raw,omitempty"` // log: payload (repeated Rep times) instead of the synthetic one
+	Rep     int       `json:"rep,omitempty"`
 }
 
 // Cond is a condition on the measure of an earlier draw of the same scope.
@@ -351,6 +353,9 @@ func (x *Interp) execStmt(fr *frame, st *Stmt) {
 		x.ev(Event{K: "ctx", Scope: fr.sc.id, ID: known, Live: ctx.Err() == nil, Where: fr.where, Ctx: ctx})
 	case "log":
 		payload := logPayload(st.N, st.Site)
+		if st.Raw != nil {
+			payload = strings.Repeat(string(st.Raw), max(st.Rep, 1))
+		}
 		if st.Kind == "Log" {
 			t.Log(payload)
 		} else {
